@@ -2,7 +2,7 @@
    About the transitions generated from optimizer.py, accountant.py, rdp.py, prv.py, gdp.py. *)
 From Coq Require Import ZArith Reals List Bool.
 From OV Require Import Base.Num Base.NumZ Base.NumR Base.Py Model.OptimState Model.OptimRef Gen.Optim
-  Proofs.OptimSM Proofs.OptimEq Proofs.OptimTrace Proofs.OptimMore.
+  Proofs.OptimSM Proofs.OptimEq Proofs.OptimTrace Proofs.OptimMore Model.BmmState Gen.Bmm Proofs.BmmP.
 Import ListNotations.
 
 (* After ANY program (forward/backward, steps, zero_grad, skip signals, scheduler writes; any variant;
@@ -76,6 +76,12 @@ Example C05_nonvacuous :
   o_hist s = [(1, 1, 2); (2, 1, 1)]%Z /\ count_inner (o_events s) = 3%nat.
 Proof. vm_compute. split; reflexivity. Qed.
 
+(* an EMPTY Poisson batch under the batch memory manager is a real (non-skipped) logical step: the sampler generated from
+   BatchSplittingSampler.__iter__ signals do_skip = False for it, so the step is noised and accounted like any other *)
+Theorem C05_empty_batch_not_skipped (mx : Z) (out : list bev) : (1 <= mx)%Z ->
+  bmm_one_batch (mkbst mx out) [] = SOk (mkbst mx (out ++ [BSignal false; BYield []])) tt.
+Proof. intros H. exact (bmm_one_batch_spec mx out [] H). Qed.
+
 Print Assumptions C05_accounting_exact.
 Print Assumptions C05_accounting_exact_Z.
 Print Assumptions C05_accounting_exact_R.
@@ -83,3 +89,4 @@ Print Assumptions C05_step_trace.
 Print Assumptions C05_runlength_sound.
 Print Assumptions C05_generated_step_is_ref.
 Print Assumptions C05_gdp_single_run.
+Print Assumptions C05_empty_batch_not_skipped.
